@@ -66,12 +66,21 @@ def numS : SVal → Dec
   | .j x => numOf x
   | .re _ => Dec.ofInt 0
 
+/-- a string spelling "nan" (any case) is not a number at all: no ordering holds of it -/
+def notANumber : Json → Bool
+  | .str s => s.toLower == "nan"
+  | _ => false
+
+def notANumberS : SVal → Bool
+  | .j x => notANumber x
+  | .re _ => false
+
 def ordS (rel : Dec → Dec → Bool) (a b : SVal) : Bool :=
   match a, b with
-  | .j (.arr xs), .j (.arr ys) => xs.all fun i => ys.all fun k => rel (numOf i) (numOf k)
-  | .j (.arr xs), _ => xs.any fun i => rel (numOf i) (numS b)
-  | _, .j (.arr ys) => ys.any fun k => rel (numS a) (numOf k)
-  | _, _ => rel (numS a) (numS b)
+  | .j (.arr xs), .j (.arr ys) => xs.all fun i => ys.all fun k => !notANumber i && !notANumber k && rel (numOf i) (numOf k)
+  | .j (.arr xs), _ => xs.any fun i => !notANumber i && !notANumberS b && rel (numOf i) (numS b)
+  | _, .j (.arr ys) => ys.any fun k => !notANumberS a && !notANumber k && rel (numS a) (numOf k)
+  | _, _ => !notANumberS a && !notANumberS b && rel (numS a) (numS b)
 
 def cmpS (op : String) (a b : SVal) : Bool :=
   if op == ">" then ordS (fun x y => Dec.lt y x) a b
